@@ -196,6 +196,9 @@ def replay_logic(w):
             for i in range(len(self.pts)):
                 for j in range(i + 1, len(self.pts)):
                     a, b = atom_of_xyz[self.pts[i]], atom_of_xyz[self.pts[j]]
+                    if w["cfg"] in PL.ONLY and a[0] != b[0] and kind_of(a) != kind_of(b) and (a[1], b[1]) not in PL.ONLY[w["cfg"]] \
+                            and (b[1], a[1]) not in PL.ONLY[w["cfg"]]:
+                        continue
                     if a[0] == b[0] or kind_of(a) == kind_of(b) or cval.get(tuple(sorted((a, b))), {}).get("near"):
                         out.append((i, j))
             if w["order"] == "sym":
@@ -507,11 +510,11 @@ def _dispatch(spec):
 def run(rep, tier):
     from vlib.core import Violation, VERIF
     from vlib.par import pmap, Crashed
-    specs = [("logic", ("GC", "fwd")), ("logic", ("AU-rev", "fwd")), ("logic", ("AG-sugar", "fwd")), ("logic", ("GC", "rev")), ("logic", ("GU-mixed", "sym")),
+    specs = [("logic", ("GC", "fwd")), ("logic", ("AU-rev", "fwd")), ("logic", ("AG-sugar", "fwd")), ("logic", ("GC", "rev")), ("logic", ("GU-mixed", "sym")), ("logic", ("GG-hoog", "fwd")), ("logic", ("GA-sugar3", "fwd")),
              ("contact", (2, False)), ("contact", (0, True)), ("cistrans", ("G", "C")), ("cistrans", ("U", "A")),
              ("normal", ("G", None)), ("normal", ("C", None)), ("normal", ("A", "N7")), ("normal", ("U", "O2"))]
     if tier != "quick":
-        specs += [("logic", ("GG-hoog", "fwd")), ("logic", ("AU-rev", "rev")), ("logic", ("AG-sugar", "rev")), ("contact", (1, False)),
+        specs += [("logic", ("GG-hoog", "rev")), ("logic", ("AU-rev", "rev")), ("logic", ("AG-sugar", "rev")), ("contact", (1, False)),
                   ("cistrans", ("A", "G")), ("cistrans", ("C", "U")), ("normal", ("A", None)), ("normal", ("U", None)), ("normal", ("T", None)),
                   ("normal", ("G", "N9")), ("normal", ("C", "C4"))]
     results = pmap(_dispatch, specs)
